@@ -17,6 +17,10 @@ theirs that sub_mesh_pattern cannot notice stays silent).
   implies    the statement read literally on S<=L: if q is reported to occur in p then every
              sigma in S<=L containing p (reference) contains q (reference).
   mim3       the same with p of length 3 (families), q of length <= 3.
+  holes      large regions (need |p| >= 5): for every underlying pattern of length 5 (thorough
+             also 6) every point-free rectangle of boxes, shaded completely / minus one box /
+             minus one column / minus one row; submesh + strongest for every index subset, and
+             small q inside these patterns ("mimh_sound" / "mimh_complete").
   derived    contains / avoids / in / contained_in / avoided_by / count_occurrences_in agree
              with occurrences_in;  multi: contains/avoids with two arguments.
   types      q given as Perm (classical, viewed as unshaded), BivincularPatt, VincularPatt,
@@ -156,11 +160,11 @@ def fam_k(k, sizes, biv=True, codebase=True, lines=None):
 _SEM = {}        # (patt, maxlen) -> Y.Sem   (built lazily per worker; small)
 
 
-def sem_for(patt, maxlen):
-    key = (patt, maxlen)
+def sem_for(patt, maxlen, max_subset=None):
+    key = (patt, maxlen, max_subset)
     s = _SEM.get(key)
     if s is None:
-        s = _SEM[key] = Y.Sem(patt, maxlen)
+        s = _SEM[key] = Y.Sem(patt, maxlen, max_subset)
     return s
 
 
@@ -414,6 +418,80 @@ def shard_mim(shard):
     return part
 
 
+# --------------------------------------------------------------------------------------------
+# large regions: rectangles of boxes, full or with a hole / a missing line
+# --------------------------------------------------------------------------------------------
+
+def pointfree_rects(patt, minside, minsum=0):
+    """Every rectangle of boxes [a..b] x [c..d] of the grid of patt with both sides >= minside
+    (and width + height >= minsum) that has no point of patt strictly inside."""
+    k = len(patt)
+    for a in range(k + 1):
+        for b in range(a + minside - 1, k + 1):
+            for c in range(k + 1):
+                for d in range(c + minside - 1, k + 1):
+                    if (b - a + 1) + (d - c + 1) < minsum:
+                        continue
+                    if not any(a <= i < b and c <= patt[i] < d for i in range(k)):
+                        yield a, b, c, d
+
+
+def rect_shadings(rect):
+    """The rectangle itself, the rectangle minus one box (every box in turn: corner, border,
+    interior), minus one column, minus one row."""
+    a, b, c, d = rect
+    full = frozenset((x, y) for x in range(a, b + 1) for y in range(c, d + 1))
+    out = {full}
+    for box in full:
+        out.add(full - {box})
+    for x in range(a, b + 1):
+        out.add(frozenset(z for z in full if z[0] != x))
+    for y in range(c, d + 1):
+        out.add(frozenset(z for z in full if z[1] != y))
+    return out
+
+
+def holes_of(patt, minside, minsum=0):
+    """All distinct shadings of the family for one underlying pattern, in a fixed order."""
+    out = set()
+    for rect in pointfree_rects(patt, minside, minsum):
+        out |= rect_shadings(rect)
+    return sorted(out, key=lambda sh: (len(sh), sorted(sh)))
+
+
+def shard_holes(shard):
+    """submesh/strongest for every pattern of the rectangle family over a slice of the
+    underlying patterns of length k, every index subset (of size <= max_subset); and, if qname
+    is given, every q of that family inside each of these patterns."""
+    k, minside, minsum, plo, phi, max_subset, qname, do_sub = shard
+    lib = _lib()
+    part = Partial()
+    qs = [(qspec, q, spec_shading(qspec)) for qspec, q in _FAM[qname]] if qname else []
+    for patt in R.perms(k)[plo:phi]:
+        sem = sem_for(patt, k + 1, max_subset)
+        P = lib.Perm(patt)
+        for sh in holes_of(patt, minside, minsum):
+            spec = mesh_spec(patt, sh)
+            try:
+                obj = lib.MeshPatt(P, spec[2])
+            except Exception as exc:  # noqa
+                part.violation("construct", spec_case(spec), {"exception": repr(exc)})
+                continue
+            strong = sem.strongest_all(sh)
+            if do_sub:
+                check_sub(part, spec, obj, strong, False)
+                part.bump("holes:patterns")
+            for qspec, q, qsh in qs:
+                exp = check_mim(part, qspec, q, spec, obj, strong, False, "mimh", qsh)
+                nt = 1 if (exp is not None and qsh and 0 < len(exp) < len(classical(qspec[1], patt))) else 0
+                part.add(1, nt)
+                part.bump("mimh:pairs")
+                if exp:
+                    part.bump("mimh:pairs-with-occurrence")
+        _SEM.pop((patt, k + 1, max_subset), None)
+    return part
+
+
 def shard_multi(shard):
     """p.contains(q1, q2) / p.avoids(q1, q2) / contained_in / avoided_by with two arguments."""
     qname, pname, lo, hi = shard
@@ -581,6 +659,30 @@ def run(ctx, only=None):
                 jobs += [(shard_sub_allmask, (p, mlo, mlo + step)) for mlo in range(0, 1 << 16, step)]
             ctx.bounds["submesh_all3"] = "ALL 6*2^16 mesh patterns of length 3 x all 8 index subsets"
 
+    if want("holes"):
+        # regions of at least 3 x 3 (2 x 2) boxes need patterns of length >= 5
+        small_q = [s for s in fam_all(1) if len(s[2]) <= 1 or len(s[2]) == (len(s[1]) + 1) ** 2]
+        build_family("QH", small_q, ctx)
+        build_family("QH2only", fam_k(2, (0, 1), biv=False, codebase=False), ctx)
+        n5 = len(R.perms(5))
+        if quick:
+            jobs += [(shard_holes, (5, 3, 0, lo, lo + 1, None, "QH", True)) for lo in range(n5)]
+        else:
+            jobs += [(shard_holes, (5, 2, 0, lo, lo + 1, None, "QH", True)) for lo in range(n5)]
+            jobs += [(shard_holes, (5, 3, 0, lo, min(n5, lo + 4), 2, "QH2only", False)) for lo in range(0, n5, 4)]
+            n6 = len(R.perms(6))
+            jobs += [(shard_holes, (6, 3, 7, lo, min(n6, lo + 3), 2, None, True)) for lo in range(0, n6, 3)]
+        ctx.bounds["holes"] = {
+            "patterns": "for every underlying pattern of length 5: every point-free rectangle of boxes with both "
+                        "sides >= %d, shaded completely / minus one box (each box in turn) / minus one column / "
+                        "minus one row" % (3 if quick else 2)
+                        + ("" if quick else "; length 6: the same for rectangles with sides >= 3 and width + "
+                                            "height >= 7"),
+            "index_subsets": "all 32" + ("" if quick else " (length 6: all subsets of size <= 2; a point-free "
+                                                          "3 x 4 region leaves at most one chosen point)"),
+            "mimh": "q of length <= 1 with <= 1 or all cells shaded (8) inside every length-5 pattern of the family"
+                    + ("" if quick else "; q of length 2 with <= 1 cell (20) inside those with sides >= 3")}
+
     if want("mim"):
         n = len(_FAM["M2"])
         per = 8
@@ -712,5 +814,5 @@ def replay(ctx, rec):
                 if R.mesh_contains(sigma, s[1], spec_shading(s)):
                     m |= 1 << bit
             _CMASK[s] = m
-        base = sub.split("_")[0] if sub.split("_")[0] in ("mim", "mim3", "types") else "mim"
+        base = sub.split("_")[0] if sub.split("_")[0] in ("mim", "mim3", "mimh", "types") else "mim"
         check_mim(ctx, qspec, q, pspec, p, strong, True, base)
